@@ -1291,7 +1291,13 @@ impl Engine for Chain {
         // the generated chain is an oracle only inside the theorems' precondition
         let pre = ask_model(&format!("chain pre {}", case.strip_prefix("chain ").unwrap_or(case)));
         match pre.as_deref() {
-            Some("1") | None => {}
+            Some("1") => {}
+            // no model process (its build failed: `./check` reports that as a broken obligation): the
+            // generated chain is an oracle only inside the precondition, which nobody evaluated
+            None => {
+                res.tags.push("pre-unknown:no-model".into());
+                return res;
+            }
             Some("0") => {
                 res.tags.push("pre-rejected".into());
                 res.tags.push(format!("pre-rejected:{tech}"));
